@@ -35,8 +35,10 @@ def free_locals(fn, e, seen=None, depth=0):
                     s = src
                     while s[0] == 'proj':
                         s = s[1]
-                    if s[0] == 'expr':
+                    if s[0] in ('expr', 'assign'):
                         out |= free_locals(fn, s[1], seen, depth + 1)
+                    elif s[0] == 'mut':
+                        out |= free_locals(fn, s[2], seen, depth + 1)
     return out
 
 
